@@ -34,6 +34,7 @@ pub fn def() -> CheckDef {
         exec,
         components: "real code: every stateful public type of the nine crates with its IvState / get_state / from_state / InnerIvInit implementations; stub: block cipher in most runs, real ciphers in the rest; crash = drop of the instance (only the exported bytes survive); no reference model: the public chaining value is computed from the real input/output bytes of the uninterrupted twin",
         assumptions: &["export of the byte-stream aliases is taken at block boundaries only (the wrapper's buffer is not part of IvState)", "sampling of scenarios, enumeration of cut points within each", "toy permutation is a bijection"],
+        nondet_is_violation: false,
     }
 }
 
